@@ -4,6 +4,7 @@ import (
 	"bytes"
 	"errors"
 	"fmt"
+	"math"
 	"sync"
 )
 
@@ -462,13 +463,22 @@ func readInt(n int, b []byte) ([]byte, uint64, error) {
 	nn := uint64(0)
 
 	for i := 1; i < len(b); i++ {
-		if shift := (i - 1) * 7; shift >= 64 {
+		shift := (i - 1) * 7
+
+		// The tenth continuation byte only has room for one more bit, and the
+		// prefix still has to be added to the sum: a value that needs more than
+		// 64 bits would otherwise come back as whatever is left of it.
+		if v := uint64(b[i] & 127); shift >= 64 || (shift == 63 && v > 1) {
 			return b, 0, ErrIntOverflow
 		} else {
-			nn |= uint64(b[i]&127) << shift
+			nn |= v << shift
 		}
 
 		if b[i]&128 != 128 {
+			if nn > math.MaxUint64-uint64(b0) {
+				return b, 0, ErrIntOverflow
+			}
+
 			return b[i+1:], nn + uint64(b0), nil
 		}
 	}
